@@ -50,6 +50,7 @@ pub struct EnumInfo {
     pub name: String,
     pub module: Vec<String>,
     pub variants: Vec<String>,
+    pub payloads: Vec<Option<Ty>>,
     pub plain: bool,
     pub file: String,
 }
@@ -195,7 +196,8 @@ pub fn conv_type(t: &Type, bind: &HashMap<String, Ty>) -> Ty {
                 "u64" => Ty::Int(IntK::U64),
                 "i64" => Ty::Int(IntK::I64),
                 "usize" => Ty::Int(IntK::Usize),
-                "isize" => Ty::Int(IntK::Isize),
+                "isize" => Ty::Int(IntK::I64),
+                "NonZeroU64" => Ty::Int(IntK::U64),
                 "i32" => Ty::Int(IntK::I32),
                 "u32" => Ty::Int(IntK::U32),
                 "u8" => Ty::Int(IntK::U8),
@@ -267,6 +269,11 @@ impl Index {
         }
         for c in self.consts.values_mut() {
             fix(&mut c.ty, &snames, &enames);
+        }
+        for e in self.enums.values_mut() {
+            for p in e.payloads.iter_mut().flatten() {
+                fix(p, &snames, &enames);
+            }
         }
         // struct support / has_float (iterate to fixpoint)
         for _ in 0..4 {
@@ -490,13 +497,26 @@ fn index_items(idx: &mut Index, module: &[String], file: &str, items: &[Item], t
                 }
             }
             Item::Enum(e) if traits_pass => {
-                let plain = e.variants.iter().all(|v| matches!(v.fields, Fields::Unit));
+                let plain = e.variants.iter().all(|v| match &v.fields {
+                    Fields::Unit => true,
+                    Fields::Unnamed(u) => u.unnamed.len() == 1,
+                    _ => false,
+                });
+                let payloads: Vec<Option<Ty>> = e
+                    .variants
+                    .iter()
+                    .map(|v| match &v.fields {
+                        Fields::Unnamed(u) if u.unnamed.len() == 1 => Some(conv_type(&u.unnamed[0].ty, &HashMap::new())),
+                        _ => None,
+                    })
+                    .collect();
                 idx.enums.insert(
                     e.ident.to_string(),
                     EnumInfo {
                         name: e.ident.to_string(),
                         module: module.to_vec(),
                         variants: e.variants.iter().map(|v| v.ident.to_string()).collect(),
+                        payloads,
                         plain,
                         file: file.to_string(),
                     },
@@ -574,7 +594,9 @@ fn index_items(idx: &mut Index, module: &[String], file: &str, items: &[Item], t
                                 .collect(),
                             _ => vec![],
                         };
-                        (Some(last.ident.to_string()), args)
+                        let is_rand = p.segments.iter().any(|s| s.ident == "rand");
+                        let tn = if is_rand { format!("Rand{}", last.ident) } else { last.ident.to_string() };
+                        (Some(tn), args)
                     }
                     None => (None, vec![]),
                 };
@@ -605,7 +627,7 @@ fn index_items(idx: &mut Index, module: &[String], file: &str, items: &[Item], t
                         );
                         fi.generic |= impl_generic;
                         // disambiguate rand::Distribution<T>::sample by output type
-                        if trait_name.as_deref() == Some("Distribution") && fi.name == "sample" {
+                        if trait_name.as_deref() == Some("RandDistribution") && fi.name == "sample" {
                             let suffix = match trait_args.get(0) {
                                 Some(Ty::F64) => "f64",
                                 Some(Ty::Int(IntK::U64)) => "u64",
@@ -638,7 +660,7 @@ fn index_items(idx: &mut Index, module: &[String], file: &str, items: &[Item], t
                             if have.contains(&n) {
                                 continue;
                             }
-                            let mut fi = mk_fn(&ti.module, &ti.file, Some(sty.clone()), Some(tn.clone()), trait_args.clone(), &d.sig, &d.block, true, &b2, true, cfg_rand);
+                            let mut fi = mk_fn(&ti.module, file, Some(sty.clone()), Some(tn.clone()), trait_args.clone(), &d.sig, &d.block, true, &b2, true, cfg_rand);
                             fi.generic |= impl_generic;
                             fi.module = ti.module.clone();
                             if !idx.fns.contains_key(&fi.key) {
